@@ -340,5 +340,5 @@ func TestProp(t *testing.T) {
 	defer r.Finish()
 	evid.Rapid(r, t, "join-mic-and-encryption",
 		"rapid: join-requests, rejoin-requests type 0/1/2 and join-accepts (random 8-byte EUIs, boundary-biased nonces < 2^24, NetID, DevAddr, DLSettings with OptNeg both ways, RXDelay 0..15, CFList absent/channels/masks) x random keys x JoinReqType in {0xff,0,1,2} x JoinEUI x DevNonce. Oracle: own AES-CMAC over the wire model (1.0 form, or the 1.1 form prefixing JoinReqType|JoinEUI LE|DevNonce LE when OptNeg), AES-decrypt-ECB over payload|MIC from crypto/aes. Checks: Set == reference; Validate accepts exactly it; 3-8 single-input perturbations (key bit, JoinReqType, JoinEUI bit, DevNonce bit, any frame field, Major) where validation must answer exactly whether the reference MIC is unchanged (so the OptNeg inputs matter only with OptNeg); ciphertext byte-identical for the 16- and 32-byte forms; device-side AES-encrypt recovers payload|MIC; decode+decrypt restores payload and MIC; decrypting a copy leaves the encrypted frame intact and decrypting the same ciphertext twice gives the same result; arbitrary MIC field values (0, 1, all ones) encrypt per specification. Non-trivial: join/rejoin request, or join-accept with OptNeg or CFList.",
-		50000, 3000000, genCase, checkCase)
+		150000, 3000000, genCase, checkCase)
 }
